@@ -533,7 +533,7 @@ def main(argv=None):
     }
     if getattr(mod, "EXHAUSTIVE", None):
         cov["exhaustive"] = bool(mod.EXHAUSTIVE if not callable(mod.EXHAUSTIVE) else mod.EXHAUSTIVE(args.tier)) and not cov["budget_hit"]
-    scratch = os.path.realpath(env.REPO) != "/repo" or args.budget is not None
+    scratch = os.path.realpath(env.REPO) != "/repo" or args.budget is not None or bool(os.environ.get("VERIF_SEEDED"))
     write_evidence(mod, args.tier, seed, cov, time.time() - t0, len(violations), scratch=scratch)
 
     for line in known_lines:
